@@ -13,6 +13,14 @@ type dumper struct {
 	sb   strings.Builder
 	wp   bool
 	srcs map[*ast.Source]int
+	// normalisations for round-trip oracles: descriptions and the built-in mark left out
+	noDesc, noBuiltin bool
+}
+
+func (d *dumper) desc(x string) {
+	if !d.noDesc {
+		d.hex(x)
+	}
 }
 
 func (d *dumper) s(x string)   { d.sb.WriteString(x) }
@@ -245,7 +253,7 @@ func (d *dumper) argdefs(as ast.ArgumentDefinitionList) {
 			d.s(",")
 		}
 		d.s("a(")
-		d.hex(a.Description)
+		d.desc(a.Description)
 		d.s(",")
 		d.hex(a.Name)
 		d.s(",")
@@ -286,7 +294,7 @@ func (d *dumper) defs(ds ast.DefinitionList) {
 
 func (d *dumper) def(x *ast.Definition) {
 	d.s("T" + kindIdx[x.Kind] + "(")
-	d.hex(x.Description)
+	d.desc(x.Description)
 	d.s(",")
 	d.hex(x.Name)
 	d.s(",")
@@ -299,7 +307,7 @@ func (d *dumper) def(x *ast.Definition) {
 			d.s(",")
 		}
 		d.s("f(")
-		d.hex(f.Description)
+		d.desc(f.Description)
 		d.s(",")
 		d.hex(f.Name)
 		d.s(",")
@@ -321,7 +329,7 @@ func (d *dumper) def(x *ast.Definition) {
 			d.s(",")
 		}
 		d.s("e(")
-		d.hex(e.Description)
+		d.desc(e.Description)
 		d.s(",")
 		d.hex(e.Name)
 		d.s(",")
@@ -330,7 +338,7 @@ func (d *dumper) def(x *ast.Definition) {
 		d.pos(e.Position)
 	}
 	d.s("],")
-	d.b(x.BuiltIn)
+	d.b(x.BuiltIn && !d.noBuiltin)
 	d.s(")")
 	d.pos(x.Position)
 }
@@ -342,7 +350,7 @@ func (d *dumper) schemadefs(ss ast.SchemaDefinitionList) {
 			d.s(",")
 		}
 		d.s("C(")
-		d.hex(s.Description)
+		d.desc(s.Description)
 		d.s(",")
 		d.dirs(s.Directives)
 		d.s(",[")
@@ -368,7 +376,7 @@ func (d *dumper) dirdefs(ds ast.DirectiveDefinitionList) {
 			d.s(",")
 		}
 		d.s("R(")
-		d.hex(x.Description)
+		d.desc(x.Description)
 		d.s(",")
 		d.hex(x.Name)
 		d.s(",")
